@@ -8,7 +8,7 @@ from ..core import COL
 from ..shadow import bits
 from . import common
 from .common import call, RAISED
-from .c06 import permuted_dict
+from .c06 import permuted_dict, structured_raw_dict, RAW_HOWS
 
 CAP = {'quick': 1500, 'thorough': 3000}
 
@@ -258,6 +258,10 @@ def run_case(concepts, case, spec):
             if c3 is not RAISED and 'lattice' in vars(c3):
                 with core.monitor_code():
                     judge_labels(common.tie(c3.lattice, c3), cap, 'loaded_raw')
+            c4 = call(concepts.Context.fromdict, structured_raw_dict(d, rng, RAW_HOWS[hash(gen.table_key(case)) % 4]), raw=True)
+            if c4 is not RAISED and 'lattice' in vars(c4):
+                with core.monitor_code():
+                    judge_labels(common.tie(c4.lattice, c4), cap, 'loaded_raw')
         if sl.n <= 250:
             try:
                 ctx2, lat2 = pickle.loads(pickle.dumps((ctx, lat)))
